@@ -199,6 +199,7 @@ def check_process_interrupt(sc, out, facts, d) -> list:
 
 class C14(Check):
     id = 'C14'
+    owns_liveness = True
     level = 'fault_enumeration'
     mixed = True
     quick_runs = 1600
